@@ -116,6 +116,13 @@ func (s *Sim) add(e Event) {
 	s.log = append(s.log, e)
 }
 
+// Note appends a caller-defined event to the log (same clock as the rest).
+func (s *Sim) Note(kind, route string) {
+	s.mu.Lock()
+	s.add(Event{Kind: kind, Route: route})
+	s.mu.Unlock()
+}
+
 // Log returns a copy of the event log.
 func (s *Sim) Log() []Event {
 	s.mu.Lock()
@@ -313,8 +320,28 @@ func (b *Barrier) wait(hr *http.Request, route string) error {
 	case <-ch:
 		return nil
 	case <-hr.Context().Done():
+		b.mu.Lock()
+		q := b.waiting[route]
+		for i, c := range q {
+			if c == ch {
+				b.waiting[route] = append(q[:i:i], q[i+1:]...)
+				break
+			}
+		}
+		b.mu.Unlock()
 		return hr.Context().Err()
 	}
+}
+
+// ParkedCount returns the number of requests currently parked.
+func (b *Barrier) ParkedCount() int {
+	b.mu.Lock()
+	defer b.mu.Unlock()
+	n := 0
+	for _, q := range b.waiting {
+		n += len(q)
+	}
+	return n
 }
 
 // Arrived yields the route of each request as it parks.
